@@ -707,6 +707,39 @@ func rsemScenario(c *Ctx, sh *shard, scen int) {
 		}
 	}
 
+	// C01, directly: a stored row whose own indexed value satisfies a minmax condition is returned by a
+	// query carrying that condition (after flushes and merges the block's range must still cover it)
+	if len(c.Props) == 0 || c.Props["C01"] || c.Props["C04"] {
+		probes := 0
+		for _, r := range rows {
+			v, ok := r.tr.row["n"]
+			if !ok || probes >= 12 {
+				continue
+			}
+			lo, hi, isNum := bs.ConvertToMinMaxInt64(v)
+			if !isNum {
+				continue
+			}
+			probes++
+			for _, nc := range []bs.NumericCondition{bs.NumericBetween(lo, hi), bs.NumericGreaterThanEqual(lo), bs.NumericLessThanEqual(hi)} {
+				pe := bs.MinMax("n", nc)
+				res, err := eng.Query(ctx, &bs.Query{Prefilter: &bs.QueryPrefilter{Expression: &pe}})
+				must(err)
+				found := false
+				for res.Next() {
+					if id, ok := res.Row()["_id"].(float64); ok && int(id) == r.id {
+						found = true
+					}
+				}
+				res.Close()
+				if !found {
+					c.violation("c01-own-value-prefilter", fmt.Sprintf("row %d holds n=%v (indexed as [%d,%d]) but is not returned by a query with prefilter %s %d..%d", r.id, v, lo, hi, nc.Operator, nc.Min+nc.Value, nc.Max), map[string]any{"merged": merged, "row": fmt.Sprintf("%v", r.tr.row)})
+				}
+			}
+			c.count([]string{"C01"}, fmt.Sprintf("own:%d:%v:%d", scen, v, r.id), true, nil)
+		}
+	}
+
 	// hit set over a few rows
 	h := &hitSet{}
 	for i := 0; i < 4 && i < len(rows); i++ {
